@@ -53,6 +53,8 @@ ASSUMPTIONS = [
     "float64 by the code; injected jumps keep it >= 1e-3 away from equality",
     "clusters (static.cluster) are taken from the code (C19's subject); index labels unique except "
     "in the 'dup' layout, which is judged by the direct oracle only",
+    "at least one parameter is not constant (with an empty parameter vector scipy raises ValueError "
+    "before any fit is attempted; like max_iter = 0 this is a degenerate configuration, not a failed fit)",
     "max_iter >= 1 (max_iter = 0 raises UnboundLocalError in the code and `unboundRmsDev` in the "
     "model; it is not a failed fit and outside the claim); constraints=None; compute_error=False",
     "default bounds are read as: positivity (>= 1e-7) of background/signal/size when no absolute "
@@ -215,7 +217,7 @@ def gen_accuracy_case(rng):
 def gen_cases(ctx):
     for inp in ctx.corpus():
         yield inp
-    nb, nr, na = ctx.n(500, 8000), ctx.n(220, 3500), ctx.n(40, 600)
+    nb, nr, na = ctx.n(1500, 12000), ctx.n(700, 6000), ctx.n(80, 800)
     for i in range(max(nb, nr, na)):
         if i < nb:
             yield gen_bounds_case(ctx.rng("bounds", i))
@@ -648,6 +650,9 @@ def run_refine(ctx, inp, res):
         last = mins[-1] if mins else None
         if isinstance(exc, ValueError) and last is not None and last["act"] == "V":
             res.stat("refine_injected_foreign_exception")        # named gap: outside the claim
+        elif last is not None and len(last["x0"]) == 0:
+            res.stat("refine_nothing_to_fit")    # every parameter constant: no fit is attempted at all
+            return
         elif last is not None and last["out"] == "R" and (last["bounds"][:, 0] > last["bounds"][:, 1]).any():
             res.stat("refine_raised_infeasible")
             j = int(np.argmax(last["bounds"][:, 0] > last["bounds"][:, 1]))
